@@ -45,6 +45,13 @@ CHECKS = {
                      'graph after every step, one registered/unregistered announcement per operation, probes neither lost, duplicated nor '
                      'crossing trees, every unregistration completes',
                 note='trusted: z3/pathex, ghost forest; one recorded known finding (ancestor detaches first) is reported as KNOWN-FINDING'),
+    'C09': dict(engine='pathex', technique=TECH, ref='DESIGN.md 4/C09',
+                text='bounded symbolic execution of the real Timer / generate_events / fall-back idle code with the wall clock as a '
+                     'symbolic variable: intervals, clock advances between iterations and idle-wait durations are z3 Reals; not-early, '
+                     'one-interval-apart, no-fire-after-unregister, idle-wait-never-past-earliest-expiry and due-timer-fires-now are '
+                     'discharged by z3 for every value within the stated numbers of timers/iterations',
+                note='trusted: z3/pathex; the clock/Event doubles and their contracts (non-decreasing clock constant within an iteration, '
+                     'wait(t) returns within t); datetime deadlines and Sleep outside'),
 }
 
 NOT_YET = {
